@@ -19,6 +19,9 @@ Proved (`tl1_roundtrip_partial`): for descriptors with `Desc.rtOk` (tags fit 32 
 fields, union tags select their variant), for `cfg.sanity = false` or under `Desc.elemMin4` (every vector / dynamic
 tuple / dictionary element type encodes to ≥ 4 bytes, by the sound lower bound `minSize`), every `Normal` value
 that the writer accepts reads back **exactly** (`v' = v`), with any suffix left untouched.
+`tl1_roundtrip_partial_on` is the same with the guards required only on a reference-closed set `S` of instances
+(`Desc.closed`, e.g. `d.reach ty`): a zero-size element type somewhere in the schema (the real `cases.tl` has one)
+does not spoil the theorem for the types that cannot reach it.
 -/
 namespace TLVerif.Props.C01
 open TLVerif.Prim TLVerif.Codec
@@ -37,13 +40,24 @@ def Normal (d : Desc) (fuel ty : Nat) (bare : Bool) (params : List Nat) (v : Val
 instance (d : Desc) (fuel ty : Nat) (bare : Bool) (params : List Nat) (v : Val) :
     Decidable (Normal d fuel ty bare params v) := by unfold Normal; infer_instance
 
+/-- **C01** on a reference-closed set `S` of instances (guards `rtOk` and `sanity = false ∨ elemMin4` on `S`,
+`Normal` on the value). Exact round trip. -/
+theorem tl1_roundtrip_partial_on (cfg : Cfg) (d : Desc) (S : Nat → Bool) (hcl : d.closed S = true)
+    (hrt : d.allOn S (Inst.rtOk d) = true)
+    (hs : cfg.sanity = false ∨ d.allOn S (Inst.elemMin4 d) = true)
+    (fuel ty : Nat) (bare : Bool) (params : List Nat) (v : Val) (bs : Bytes) (hS : S ty = true)
+    (hn : Normal d fuel ty bare params v) (hw : writeTL1 d fuel ty bare params v = .ok bs) :
+    ∀ rest, readTL1 cfg d fuel ty bare params (bs ++ rest) = .ok (v, rest) :=
+  fun rest => writeTL1_read cfg d S hcl hrt hs fuel ty bare params v bs rest hS hn hw
+
 /-- **C01** (partial: guards `rtOk`, `sanity = false ∨ elemMin4`, `Normal`). Exact round trip. -/
 theorem tl1_roundtrip_partial (cfg : Cfg) (d : Desc) (hrt : d.rtOk = true)
     (hs : cfg.sanity = false ∨ d.elemMin4 = true)
     (fuel ty : Nat) (bare : Bool) (params : List Nat) (v : Val) (bs : Bytes)
     (hn : Normal d fuel ty bare params v) (hw : writeTL1 d fuel ty bare params v = .ok bs) :
     ∀ rest, readTL1 cfg d fuel ty bare params (bs ++ rest) = .ok (v, rest) :=
-  fun rest => writeTL1_read cfg d hrt hs fuel ty bare params v bs rest hn hw
+  tl1_roundtrip_partial_on cfg d allInsts (Desc.closed_all d) (Desc.allOn_all hrt _)
+    (hs.elim Or.inl (fun h => Or.inr (Desc.allOn_all h _))) fuel ty bare params v bs rfl hn hw
 
 /-- the same in the shape of `TL1RoundTripStatement` -/
 theorem tl1_roundtrip_partial_exists (cfg : Cfg) (d : Desc) (hrt : d.rtOk = true)
@@ -137,6 +151,9 @@ example : Ex.demo.rtOk = true ∧ Ex.demo.elemMin4 = true := by decide
 example : Normal Ex.demo 3 4 false [] Ex.demoVal := by decide
 example : ∀ rest, readTL1 { sanity := true } Ex.demo 3 4 false [] (Ex.demoBytes ++ rest) = .ok (Ex.demoVal, rest) :=
   tl1_roundtrip_partial _ Ex.demo (by decide) (Or.inr (by decide)) 3 4 false [] _ _ (by decide) (by rfl)
+/-- `zeroSize` is not `elemMin4`, but its instance 0 (`true`) reaches no array: the theorem applies there with sanity on -/
+example : Ex.zeroSize.closed (Ex.zeroSize.reach 0) = true ∧
+    Ex.zeroSize.allOn (Ex.zeroSize.reach 0) (Inst.elemMin4 Ex.zeroSize) = true := by decide
 example : Ex.unionD.rtOk = true ∧ Ex.tupD.rtOk = true ∧ Ex.optD.rtOk = true ∧ Ex.dictD.rtOk = true := by decide
 example : Normal Ex.unionD 2 3 false [] (.union 1 (.struct [])) := by decide
 example : Normal Ex.dictD 3 2 true [] (.arr [.struct [some (.nat 1), some (.nat 3)], .struct [some (.nat 2), some (.nat 0)]]) := by
